@@ -14,7 +14,9 @@ Extracted (C10):
                    MemLeakScopedMutex, and which detector operations it calls (in order)
 Shape checks (TranslateError): MemLeakScopedMutex holds one ScopedMutexLock built from the global detector's mutex;
 ScopedMutexLock locks in its constructor and unlocks in its destructor; SimpleMutex::Lock/Unlock call the
-PlatformSpecificMutexLock/Unlock seams; saveAndDisable/restore copy every pointer.
+PlatformSpecificMutexLock/Unlock seams; the counter guards of saveAndDisable/restore; getGlobalDetector's one cycle.
+  * savedInit / saveCopies / restoreCopies   the saved_* variables, and which variable is copied to which by
+                   saveAndDisableNewDeleteOverloads / restoreNewDeleteOverloads (obligation save_restore_roundtrip)
 """
 import os, re
 from .common import *
@@ -209,15 +211,45 @@ def extract():
     def_on = switch("turnOnDefaultNotThreadSafeNewDeleteOverloads")
     off = switch("turnOffNewDeleteOverloads")
 
-    # --- save / restore copy every pointer (otherwise getGlobalDetector() could leave a pointer behind)
-    for fn, pat in (("saveAndDisableNewDeleteOverloads", r"saved_([A-Za-z_0-9]+_fptr) = \1"),
-                    ("restoreNewDeleteOverloads", r"([A-Za-z_0-9]+_fptr) = saved_\1")):
+    # --- save / restore: extracted as tables (which saved_* variable receives which pointer, and back); that every
+    # pointer makes the round trip is a proof obligation over the tables (save_restore_roundtrip), not a shape check,
+    # so that a dropped copy is searched for with the harness (ops save / restore / fresh) like any broken obligation.
+    saved_init = []
+    for m in re.finditer(r"static\s+void\s*\*?\s*\(\s*\*\s*(saved_[A-Za-z_0-9]+_fptr)\s*\)\s*\([^;]*?=\s*([A-Za-z_0-9]+)\s*;", src):
+        saved_init.append((m.group(1), m.group(2)))
+    if not re.search(r"static\s+int\s+save_counter\s*=\s*0\s*;", src):
+        raise TranslateError("`static int save_counter = 0;` not found")
+
+    def copies(fn, guard, last):
         body = by_name.get("MemoryLeakWarningPlugin::" + fn)
         if not body:
             raise TranslateError("function not found: " + fn)
-        got = [m.group(1) for st in _statements(body[0][1]) for m in [re.fullmatch(pat, st)] if m]
-        if sorted(got) != sorted(names):
-            raise TranslateError("%s does not copy every pointer: %r" % (fn, sorted(set(names) - set(got))))
+        sts = _statements(body[0][1])
+        if not sts or sts[0] != guard:
+            raise TranslateError("%s: first statement is not `%s`: %r" % (fn, guard, sts[:1]))
+        sts = sts[1:]
+        if last is not None:
+            if not sts or sts[-1] != last:
+                raise TranslateError("%s: last statement is not `%s`" % (fn, last))
+            sts = sts[:-1]
+        res = []
+        for st in sts:
+            m = re.fullmatch(r"([A-Za-z_0-9]+_fptr) = ([A-Za-z_0-9]+_fptr)", st)
+            if not m:
+                raise TranslateError("%s: statement is not `<pointer> = <pointer>`: %s" % (fn, st))
+            res.append((m.group(1), m.group(2)))
+        return res
+    save_copies = copies("saveAndDisableNewDeleteOverloads", "if (++save_counter > 1) return", "turnOffNewDeleteOverloads()")
+    restore_copies = copies("restoreNewDeleteOverloads", "if (--save_counter > 0) return", None)
+    # getGlobalDetector(): the first call performs one save / restore cycle around the two allocations
+    gd = by_name.get("MemoryLeakWarningPlugin::getGlobalDetector")
+    if not gd:
+        raise TranslateError("function not found: getGlobalDetector")
+    norm = re.sub(r"\s+", "", gd[0][1])
+    want = ("if(globalDetector==NULLPTR){saveAndDisableNewDeleteOverloads();globalReporter=newMemoryLeakWarningReporter;"
+            "globalDetector=newMemoryLeakDetector(globalReporter);restoreNewDeleteOverloads();}returnglobalDetector;")
+    if norm != want:
+        raise TranslateError("getGlobalDetector changed shape: " + norm)
 
     # --- the switched functions
     fdefs = []
@@ -275,6 +307,12 @@ def extract():
     text += "def defaultOn : List (String × String) :=\n  %s\n\n" % pairs(def_on)
     text += "/-- turnOffNewDeleteOverloads: pointer ← function -/\n"
     text += "def turnOff : List (String × String) :=\n  %s\n\n" % pairs(off)
+    text += "/-- static initialisers of the saved_* copies -/\n"
+    text += "def savedInit : List (String × String) :=\n  %s\n\n" % pairs(saved_init)
+    text += "/-- saveAndDisableNewDeleteOverloads (after `if (++save_counter > 1) return;`, before turnOffNewDeleteOverloads()): destination ← source -/\n"
+    text += "def saveCopies : List (String × String) :=\n  %s\n\n" % pairs(save_copies)
+    text += "/-- restoreNewDeleteOverloads (after `if (--save_counter > 0) return;`): destination ← source -/\n"
+    text += "def restoreCopies : List (String × String) :=\n  %s\n\n" % pairs(restore_copies)
     text += "structure Func where\n  name : String\n  locksFirst : Bool      -- first statement constructs the MemLeakScopedMutex\n"
     text += "  locksAnywhere : Bool\n  usesDetector : Bool    -- touches the global detector\n  calls : List String    -- detector operations called, in order\n\n"
     text += "def funcs : List Func :=\n  [" + ",\n   ".join(
